@@ -197,8 +197,8 @@ CHECKS = {
         "text": "Hash_DRBG structure on every path: instantiate, reseed and feed are the documented Hash_df chains (constant header bytes, the working value V absorbed byte for byte, then the new "
                 "material, then C = Hash_df(0x00 | V)) with the counter reset/incremented as documented; generate, per generic iteration with and without the automatic reseed and per block length "
                 "1..32: output = leading bytes of Hash(V), H = Hash(3 | V), V' = V + H + C + counter as a big-endian 256-bit sum (exact support sets plus evaluation of the bit-level terms on corner and "
-                "pseudo-random assignments). Hash calls are uninterpreted events with fresh outputs. Premise R-C15-HASH re-runs all rules of C10/C11. Every site that generates a block exists both with and without the automatic reseed in front of it. The reseed counter and limit are 32-bit fields (a narrower count of calls wraps under feeds).",
-        "note": "Output values are not computed (hash: C10/C11); reseed placement is C16; the sum is checked for counters below 2^31.",
+                "pseudo-random assignments). Hash calls are uninterpreted events with fresh outputs. Premise R-C15-HASH re-runs all rules of C10/C11. Every site that generates a block exists both with and without the automatic reseed in front of it. The reseed counter and limit are 32-bit fields (a narrower count of calls wraps under feeds). Premise R-C15-RESEED re-runs all rules of C16 (the limit a request leaves behind, the writes to counter and limit, the test before every block): where the automatic reseeds fall.",
+        "note": "Output values are not computed (hash: C10/C11); reseed placement is decided by C16's rules, re-run here as a premise; the sum is checked for counters below 2^31.",
         "technique": "symbolic path summaries with uninterpreted hash events; bit-level term evaluation for the 256-bit addition",
     },
 }
